@@ -412,7 +412,7 @@ func checkFailedOpEffectFree(c *Ctx, rule string, rootFilter func(string) bool) 
 				}
 				for _, s := range byFn[g] {
 					set, has, _ := p.SQL().whereStateSet(s)
-					isPrune := s.Verb() == "DELETE" && has && set&^patPrune.From == 0 && g != root && len(p.CallSitesOf(g)) >= 4
+					isPrune := s.Verb() == "DELETE" && has && set&^patPrune.From == 0 && g != root && p.SharedBy(g) >= 4
 					if isPrune {
 						continue
 					}
